@@ -23,6 +23,7 @@ type ctl struct {
 	ip     string
 	port   uint16
 	tcp    bool
+	tz     string // IANA zone the controller is configured with ("" = none given)
 }
 
 // Thorough makes half of the scenarios twice as large (set by the worker from VERIF_TIER).
@@ -87,6 +88,16 @@ func (b *builder) base(o baseOpt) {
 		}
 		seen[s] = true
 		c := ctl{serial: s, ip: fmt.Sprintf("%s.%d", b.prefix, 100+i), port: 60000, tcp: true}
+		if r.Intn(4) == 0 {
+			// the configuration may name the zone the controller lives in: a label as far as the protocol goes
+			c.tz = pick(r, "America/New_York", "Europe/Berlin", "Australia/Lord_Howe", "America/Santiago", "Asia/Tokyo", "UTC", "Pacific/Apia", "America/St_Johns", "Etc/GMT-14")
+			if r.Intn(2) == 0 {
+				c.tz = pick(r, zones.Names...)
+			}
+			if zones.Load(c.tz) == nil {
+				c.tz = ""
+			}
+		}
 		b.ctls = append(b.ctls, c)
 		sc.Endpoints = append(sc.Endpoints,
 			engine.Endpoint{Name: fmt.Sprintf("ctl%d/udp", i), Serial: s, IP: c.ip, Port: c.port, Proto: "udp"},
@@ -151,7 +162,7 @@ func (b *builder) base(o baseOpt) {
 			if !cfg || c.NilDevs {
 				continue
 			}
-			d := engine.DeviceCfg{Name: fmt.Sprintf("ctl %d", j), ID: k.serial, Addr: fmt.Sprintf("%s:%d", k.ip, k.port), Doors: []string{"D1", "D2", "D3", "D4"}}
+			d := engine.DeviceCfg{Name: fmt.Sprintf("ctl %d", j), ID: k.serial, Addr: fmt.Sprintf("%s:%d", k.ip, k.port), Doors: []string{"D1", "D2", "D3", "D4"}, TZ: k.tz}
 			d.Protocol = pick(r, "udp", "tcp", "udp", "tcp", "tcp", "", "any", "junk")
 			if o.directed == 0 || o.badDevAddrs {
 				switch r.Intn(8) {
@@ -514,9 +525,41 @@ func genStorm(b *builder) {
 
 // ---- C01: requests on the wire -----------------------------------------------------------------
 
+// zoneArgs rewrites the date-bearing arguments of a call with values biased to the holes of a zone: dates whose
+// local midnight the zone skipped, and - for SetTime - an instant given in a fixed-offset Location whose wall clock
+// reads a time the zone skipped (the request carries the argument's own wall clock, whatever the process zone is).
+func (z *zoneGen) zoneArgs(op model.Op, a *model.Args) {
+	r := z.r
+	switch op {
+	case model.PutCard:
+		if a.Card != nil {
+			a.Card.From, a.Card.To = z.date(1, 9999), z.date(1, 9999)
+		}
+	case model.SetTimeProfile:
+		if a.Profile != nil {
+			a.Profile.From, a.Profile.To = z.date(1, 9999), z.date(1, 9999)
+		}
+	case model.AddTask:
+		if a.Task != nil {
+			a.Task.From, a.Task.To = z.date(1, 9999), z.date(1, 9999)
+		}
+	case model.SetTime:
+		if y, mo, d, h, mi, s, ok := z.around(1900, 2100); ok {
+			off := pick(r, 0, 0, 3600, -3600, 19800, -12600, 50400)
+			t := time.Date(y, time.Month(mo), d, h, mi, s, 0, time.FixedZone("", off))
+			a.Time = &model.Civil{Y: y, Mo: mo, D: d, H: h, Mi: mi, S: s, Offset: off, Unix: t.Unix()}
+		}
+	}
+}
+
 func genC01(b *builder) {
 	r := b.r
 	b.base(baseOpt{minCtl: 1, maxCtl: 4, maxClients: 3})
+	var z *zoneGen
+	if r.Intn(8) == 0 {
+		// the bytes of a request do not depend on the process zone
+		z = b.drawZone()
+	}
 	nt := 1 + b.n(4)
 	for t := 0; t < nt; t++ {
 		tk := engine.Task{Start: time.Duration(r.Intn(3)) * 10 * time.Millisecond}
@@ -525,8 +568,14 @@ func genC01(b *builder) {
 			client := r.Intn(len(b.sc.Clients))
 			T := b.sc.Clients[client].Timeout
 			op := b.anyOp()
+			if z != nil && r.Intn(2) == 0 {
+				op = pick(r, model.SetTime, model.SetTime, model.PutCard, model.SetTimeProfile, model.AddTask)
+			}
 			serial, known := b.target()
 			a := model.GenArgs(r, op, serial)
+			if z != nil && r.Intn(2) == 0 {
+				z.zoneArgs(op, &a)
+			}
 			st := b.callStep(client, op, a, known, b.early(T), model.ReplyOpts{})
 			b.noise(&st, T)
 			tk.Steps = append(tk.Steps, st)
@@ -565,7 +614,17 @@ func genC02(b *builder) {
 			for i := range st.Plan.Emits {
 				d := st.Plan.Emits[i].Data
 				echo := append([]byte(nil), d[8:12]...)
-				z.fix(op, d)
+				zz := z
+				if known != nil && known.tz != "" && r.Intn(2) == 0 {
+					if dz := zoneOf(r, known.tz); dz != nil {
+						zz = dz
+					}
+				}
+				if op == model.GetStatus {
+					zz.fixStatus(d)
+				} else {
+					zz.fix(op, d)
+				}
 				if op == model.GetCardByID {
 					copy(d[8:12], echo)
 				}
@@ -945,6 +1004,11 @@ func genC11(b *builder) {
 	} else {
 		b.base(baseOpt{minCtl: 0, maxCtl: 6, maxClients: 2})
 	}
+	var z *zoneGen
+	if r.Intn(8) == 0 {
+		// an entry is the decoding of its reply in every process zone
+		z = b.drawZone()
+	}
 	tk := engine.Task{Start: time.Duration(r.Intn(3)) * time.Millisecond}
 	ns := 1 + b.n(3)
 	for s := 0; s < ns; s++ {
@@ -972,6 +1036,9 @@ func genC11(b *builder) {
 				if cl == "valid" && last != nil && r.Intn(3) == 0 {
 					d = append([]byte(nil), last...) // exact duplicate
 					cl = "duplicate"
+				}
+				if cl == "valid" && z != nil && r.Intn(2) == 0 {
+					z.fix(model.GetDevice, d)
 				}
 				if cl == "valid" {
 					last = d
@@ -1004,9 +1071,18 @@ func (b *builder) eventDatagram() ([]byte, string) {
 	case 2:
 		cl = pick(r, "wronglen", "garbage")
 	}
-	if b.zone != nil && (cl == "valid" || cl == "v19") {
+	var dz *zoneGen
+	for i := range b.ctls {
+		if b.ctls[i].serial == serial && b.ctls[i].tz != "" && r.Intn(2) == 0 {
+			dz = zoneOf(r, b.ctls[i].tz)
+		}
+	}
+	if dz == nil {
+		dz = b.zone
+	}
+	if dz != nil && (cl == "valid" || cl == "v19") {
 		d := model.GenReply(r, model.GetStatus, &a, serial, model.ReplyOpts{V19: cl == "v19"})
-		b.zone.fix(model.GetStatus, d)
+		dz.fixStatus(d)
 		return d, cl
 	}
 	switch cl {
@@ -1067,18 +1143,7 @@ func genC10(b *builder) {
 	}
 	if r.Intn(4) == 0 {
 		// events keep their civil date and time in every process zone
-		z := &zoneGen{r: r}
-		for z.loc == nil {
-			if r.Intn(2) == 0 && len(holes()) > 0 {
-				z.name = pick(r, holes()...)
-			} else {
-				z.name = pick(r, zones.Names...)
-			}
-			z.loc = zones.Load(z.name)
-		}
-		z.days = zones.MissingMidnights(z.name)
-		sc.TZ = z.name
-		b.zone = z
+		b.zone = b.drawZone()
 	}
 	if r.Intn(8) == 0 {
 		// a transient receive error in the middle of the stream
@@ -1350,6 +1415,36 @@ type zoneGen struct {
 	name string
 	loc  *time.Location
 	days []zones.Day
+	gaps []zones.Gap
+}
+
+// zoneOf prepares the date generator of a named zone (nil if the tz database does not know it).
+func zoneOf(r *rand.Rand, name string) *zoneGen {
+	loc := zones.Load(name)
+	if loc == nil {
+		return nil
+	}
+	return &zoneGen{r: r, name: name, loc: loc, days: zones.MissingMidnights(name), gaps: zones.Gaps(name)}
+}
+
+// around draws a civil date-time at, inside or next to one of the intervals the zone's clock skipped.
+func (z *zoneGen) around(minY, maxY int) (y, mo, d, h, mi, s int, ok bool) {
+	if len(z.gaps) == 0 {
+		return
+	}
+	for i := 0; i < 20; i++ {
+		g := z.gaps[z.r.Intn(len(z.gaps))]
+		if g.Y < minY || g.Y > maxY {
+			continue
+		}
+		off := pick(z.r, -1, 0, 1, g.Len/2, g.Len-1, g.Len, g.Len+1, -3600, g.Len+3600, z.r.Intn(g.Len+1))
+		y, mo, d, h, mi, s = g.At(off)
+		if y < minY || y > maxY || zones.NoInstant(z.loc, y, mo, d) {
+			continue
+		}
+		return y, mo, d, h, mi, s, true
+	}
+	return
 }
 
 // drawZone gives the run a process time zone (half of the time one in which some local midnights are missing).
@@ -1365,6 +1460,7 @@ func (b *builder) drawZone() *zoneGen {
 		z.loc = zones.Load(z.name)
 	}
 	z.days = zones.MissingMidnights(z.name)
+	z.gaps = zones.Gaps(z.name)
 	b.sc.TZ = z.name
 	return z
 }
@@ -1414,6 +1510,9 @@ func (z *zoneGen) fix(op model.Op, b []byte) {
 		case model.KDateTime:
 			d := z.date(1, 9999)
 			h, mi, s := z.clock()
+			if y, mo, dd, hh, mm, ss, ok := z.around(1900, 2100); ok && z.r.Intn(3) == 0 {
+				d, h, mi, s = model.Date{Y: y, M: mo, D: dd}, hh, mm, ss
+			}
 			copy(b[f.Off:], []byte{bcd(d.Y / 100), bcd(d.Y % 100), bcd(d.M), bcd(d.D), bcd(h), bcd(mi), bcd(s)})
 		case model.KSysDate:
 			d := z.date(2000, 2068)
@@ -1425,24 +1524,34 @@ func (z *zoneGen) fix(op model.Op, b []byte) {
 	}
 }
 
+// fixStatus: like fix, and a third of the time the controller's system date and time (two separate fields of a
+// status) together name a civil time at, inside or next to an interval the zone skipped.
+func (z *zoneGen) fixStatus(b []byte) {
+	z.fix(model.GetStatus, b)
+	if y, mo, d, h, mi, s, ok := z.around(2000, 2068); ok && z.r.Intn(3) == 0 {
+		b[51], b[52], b[53] = bcd(y%100), bcd(mo), bcd(d)
+		b[37], b[38], b[39] = bcd(h), bcd(mi), bcd(s)
+	}
+}
+
 func bcd(v int) byte { return byte((v/10)%10)<<4 | byte(v%10) }
 
 func genC13(b *builder) {
 	r := b.r
 	sc := b.sc
 	b.base(baseOpt{minCtl: 1, maxCtl: 2, maxClients: 1})
-	z := &zoneGen{r: r}
-	for z.loc == nil {
-		if r.Intn(2) == 0 && len(holes()) > 0 {
-			z.name = pick(r, holes()...)
-		} else {
-			z.name = pick(r, zones.Names...)
-		}
-		z.loc = zones.Load(z.name)
-	}
-	z.days = zones.MissingMidnights(z.name)
-	sc.TZ = z.name
+	z := b.drawZone()
 	sc.ParseDates = r.Intn(2) == 0
+	// the zone a controller is configured with has no say in how its dates and times are read: now and then the
+	// civil times come from the holes of *that* zone (they exist in the process zone, mostly)
+	zoneFor := func(known *ctl) *zoneGen {
+		if known != nil && known.tz != "" && r.Intn(2) == 0 {
+			if dz := zoneOf(r, known.tz); dz != nil {
+				return dz
+			}
+		}
+		return z
+	}
 
 	dated := []model.Op{model.PutCard, model.SetTimeProfile, model.AddTask, model.GetCardByIndex, model.GetCardByID, model.GetTimeProfile,
 		model.GetDevice, model.GetTime, model.SetTime, model.GetEvent, model.GetStatus}
@@ -1454,8 +1563,9 @@ func genC13(b *builder) {
 			st := engine.Step{Kind: "listen", Client: 0, StopAfter: 200 * time.Millisecond}
 			n := 1 + r.Intn(6)
 			for i := 0; i < n; i++ {
-				d := model.GenReply(r, model.GetStatus, &model.Args{}, model.GenSerial(r), model.ReplyOpts{V19: r.Intn(5) == 0})
-				z.fix(model.GetStatus, d)
+				es, ek := b.target()
+				d := model.GenReply(r, model.GetStatus, &model.Args{}, es, model.ReplyOpts{V19: r.Intn(5) == 0})
+				zoneFor(ek).fixStatus(d)
 				st.Feed = append(st.Feed, engine.Emit{After: time.Duration(i+1) * 10 * time.Millisecond, Via: "udp", From: b.prefix + ".100:60000", Data: d, Class: "valid"})
 			}
 			tk.Steps = append(tk.Steps, st)
@@ -1472,10 +1582,18 @@ func genC13(b *builder) {
 			a.Profile.From, a.Profile.To = z.date(1, 9999), z.date(1, 9999)
 		case model.AddTask:
 			a.Task.From, a.Task.To = z.date(1, 9999), z.date(1, 9999)
+		case model.SetTime:
+			if r.Intn(2) == 0 {
+				z.zoneArgs(op, &a)
+			}
 		}
 		st := b.callStep(0, op, a, known, b.early(T)/2, model.ReplyOpts{})
 		for i := range st.Plan.Emits {
-			z.fix(op, st.Plan.Emits[i].Data)
+			if op == model.GetStatus {
+				zoneFor(known).fixStatus(st.Plan.Emits[i].Data)
+			} else {
+				zoneFor(known).fix(op, st.Plan.Emits[i].Data)
+			}
 			if op == model.GetCardByID {
 				// keep the echoed card number
 				d := st.Plan.Emits[i].Data
